@@ -40,6 +40,7 @@ impl PersisterTask {
         let (sender, receiver) = unbounded();
         let log_file_size_clone = log_file_size.clone();
         let file_path_clone = file_path.clone();
+        #[cfg(not(iggy_verif))]
         let handle = tokio::spawn(async move {
             Self::run(
                 file,
@@ -52,6 +53,19 @@ impl PersisterTask {
             )
             .await;
         });
+        #[cfg(iggy_verif)]
+        let handle = tokio::spawn(iggy::verif::wrap_spawn("persister", async move {
+            Self::run(
+                file,
+                file_path,
+                receiver,
+                fsync,
+                max_retries,
+                retry_delay,
+                log_file_size_clone,
+            )
+            .await;
+        }));
         Self {
             sender,
             file_path: file_path_clone,
@@ -174,6 +188,8 @@ impl PersisterTask {
         while let Ok(request) = receiver.recv_async().await {
             match request {
                 PersisterTaskCommand::WriteRequest(batch_to_write) => {
+                    #[cfg(iggy_verif)]
+                    iggy::verif::point("persister.before_write").await;
                     match Self::write_with_retries(
                         &mut file,
                         &file_path,
@@ -185,6 +201,8 @@ impl PersisterTask {
                     .await
                     {
                         Ok(bytes_written) => {
+                            #[cfg(iggy_verif)]
+                            iggy::verif::point("persister.before_size_bump").await;
                             log_file_size.fetch_add(bytes_written, Ordering::AcqRel);
                         }
                         Err(e) => {
